@@ -386,10 +386,80 @@ def assignment_grid():
     return out
 
 
+def same_value_text(a, b):
+    """Two printed lines denote the same value: equal text, or both are number texts of the same double (the reference evaluator prints
+    with Python's repr, which differs from Rust's shortest digits where two shortest candidates are equally near - number TEXT is C19's
+    subject, the VALUE is this property's)."""
+    if a == b:
+        return True
+    try:
+        x, y = float(a), float(b)
+    except ValueError:
+        return False
+    if any(c.isalpha() for c in a + b) and not (a.lower() in ("nan", "inf", "-inf") and b.lower() in ("nan", "inf", "-inf")):
+        return False
+    return (x != x and y != y) or (x == y and math.copysign(1, x) == math.copysign(1, y))
+
+
+TABLE_POOL = [("num", x) for x in NUMS] + [("str", t) for t in ("", "a", "ab", "12")] + [ref.TRUE, ref.FALSE, ref.NIL, ("vec", [ref.num(1), ref.num(2)]), ("vec", [])]
+
+
+def operator_table_cases():
+    """Every binary operator x every ordered pair of a pool of operand values of every kind (the 27 numbers with both zeros, NaN, the
+    infinities and the integer boundaries; strings; booleans; nil; vectors) and every unary operator x the pool; operands are held in
+    variables (so -0 and NaN are computed values, not literals); one program per operator; expectation from the reference evaluator.
+    `<=`/`>=` with a NaN operand are left out (ledger F30); `&&`/`||` take the short-circuit value."""
+    names = ["p%d" % i for i in range(len(TABLE_POOL))]
+    decls = ["var %s = %s;" % (n, ref.lit_src(v)[0]) for n, v in zip(names, TABLE_POOL)]
+    out = []
+    for op in BIN:
+        lines = list(decls)
+        expected = []
+        for na, a in zip(names, TABLE_POOL):
+            for nb, b in zip(names, TABLE_POOL):
+                if op in ("<=", ">=") and a[0] == "num" and b[0] == "num" and (a[1] != a[1] or b[1] != b[1]):
+                    continue
+                try:
+                    if op == "&&":
+                        v = b if ref.truthy(a) else a
+                    elif op == "||":
+                        v = a if ref.truthy(a) else b
+                    else:
+                        v = ref.binop(op, a, b)
+                    expected.append(ref.display(v))
+                except ref.YErr as err:
+                    expected.append("ERR %s %s" % (err.kind, err.msg))
+                lines.append('try { print(%s %s %s); } catch e { print("ERR " + String.from(type(e))[7..-1] + " " + e.context); }' % (na, op, nb))
+        out.append(("optable:%s" % op, "\n".join(lines) + "\n", expected))
+    for op in ("-", "!", "~"):
+        lines = list(decls)
+        expected = []
+        for na, a in zip(names, TABLE_POOL):
+            try:
+                expected.append(ref.display(ref.unop(op, a)))
+            except ref.YErr as err:
+                expected.append("ERR %s %s" % (err.kind, err.msg))
+            lines.append('try { print(%s%s); } catch e { print("ERR " + String.from(type(e))[7..-1] + " " + e.context); }' % (op, na))
+        out.append(("optable:unary%s" % op, "\n".join(lines) + "\n", expected))
+    return out
+
+
 def correspondence(ctx, model_ok=True):
     rng = ctx.rng.fork("c05")
     failures = []
     broken = []
+    table = operator_table_cases()
+    tres, _ = progs.run_programs(ctx.runner, [(n, s, {}) for n, s, _ in table], {"gc": "default"}, steps_budget=50000000, tag="o")
+    for (name, src, exp), r in zip(table, tres):
+        c = progs.canon_step(r)
+        printed = list(c[2]) if len(c) > 2 else []
+        if c[0] != "ok" or len(printed) != len(exp) or not all(same_value_text(x, y) for x, y in zip(printed, exp)):
+            k = next((i for i in range(min(len(printed), len(exp))) if not same_value_text(printed[i], exp[i])), min(len(printed), len(exp)))
+            stmts_ = [l for l in src.split("\n") if l.startswith("try")]
+            failures.append({"what": "operator table %s: `%s` prints %r, the operator's definition gives %r (status %s %s)" % (
+                name, stmts_[k][6:stmts_[k].index(");") + 2] if k < len(stmts_) else "?", printed[k:k + 1], exp[k:k + 1], c[0], list(c[3])[:1] if len(c) > 3 else ""),
+                "program": src if len(src) < 6000 else "\n".join([l for l in src.split("\n") if l.startswith("var")] + (stmts_[k:k + 1] if k < len(stmts_) else [])) + "\n",
+                "expected_at": exp[k:k + 1], "printed_at": printed[k:k + 1], "signature": "operator table " + name.split(":")[1], "failing_input": True})
     n_e = 15000 if ctx.thorough else 1200
     n_c = 15000 if ctx.thorough else 1200
     cases = []
@@ -446,7 +516,7 @@ def correspondence(ctx, model_ok=True):
     sd = specdiff.diff(ctx, [(n, s, m) for n, s, m, _ in gen] + [("scenario:" + n, s, {}) for n, s, _ in DIRECTED], "C05", broken) if model_ok else {"failures": [], "compared": 0}
     failures += sd["failures"]
     cov = {
-        "evaluations": len(cases) + sd["compared"],
+        "evaluations": len(cases) + sd["compared"] + sum(len(e) for _, _, e in table), "operator_table_evaluations": sum(len(e) for _, _, e in table),
         "distinct_nontrivial": len(set(s for _, s, _ in cases)),
         "rule": "random expression ASTs (depth 2-4) over all 19 binary and 3 unary operators with number (27 boundary values), string, boolean, nil and vector "
                 "operands, printed with minimal parentheses and evaluated by tools/gen/ref.py, incl. tracing calls for evaluation order and compound assignments; "
